@@ -62,15 +62,17 @@ class RegionBoundingBox:
         if not _is_int(iymax):
             raise TypeError('iymax must be an integer')
 
-        if ixmin > ixmax:
+        if int(ixmin) > int(ixmax):
             raise ValueError('ixmin must be <= ixmax')
-        if iymin > iymax:
+        if int(iymin) > int(iymax):
             raise ValueError('iymin must be <= iymax')
 
-        self.ixmin = ixmin
-        self.ixmax = ixmax
-        self.iymin = iymin
-        self.iymax = iymax
+        # store Python ints so that later arithmetic cannot wrap around
+        # for small NumPy integer types
+        self.ixmin = int(ixmin)
+        self.ixmax = int(ixmax)
+        self.iymin = int(iymin)
+        self.iymax = int(iymax)
 
     @classmethod
     def from_float(cls, xmin, xmax, ymin, ymax):
